@@ -905,7 +905,9 @@ class WorldImpl(World):
                         p.read(p.read_limit)
                     elif r == 2:
                         p.read(1)
-                    # r == 1: read nothing this turn
+                    else:
+                        # read nothing this turn: the data is still pending, the world is not quiescent
+                        self.activity += 1
             # origin connections created during this turn act from the next turn on
             return self.activity != before
         finally:
